@@ -589,6 +589,7 @@ var _ uuid.UUID
 //@ func (*storage.Dataset).searchPartitionsOnNode
 //@ props C09
 //@ safety C12
+//@ allocbound C12
 //@ ghost sentR int = 0
 //@ ghost sentE int = 0
 //@ at send param:resultCh
